@@ -42,7 +42,14 @@ def observer(ctx):
         if legal and ans.startswith("err "):
             kind = ans.split(" ")[1]
             if kind.split(":")[0] in INTERNAL:
-                ctx.finding(Finding(PID, f"internal-error-{kind.split(':')[0]}-{op}",
+                sig = f"internal-error-{kind.split(':')[0]}-{op}"
+                # a path under an attached static tree that someone else declared while the tree was
+                # detached (known finding of C08): a static declaration handed over to that tree then
+                # collides and `_creator_phrase` cannot phrase the tree
+                under_tree = [b for b in koracles.ownership_invariants(sn) if "file under static tree" in b]
+                if kind == "consistency" and op in ("static", "declstatic") and under_tree:
+                    sig += ":collision-with-tree-as-declarer"
+                ctx.finding(Finding(PID, sig,
                                     f"request '{kcorr.decode_line(line)[:160]}' raised an internal error ({kind})",
                                     {"requests": [kcorr.decode_line(x) for x in run.lines][-15:],
                                      "protocol_lines": list(run.lines), "answer": ans}))
